@@ -23,7 +23,7 @@ def load_unit(name):
 class Gen:
     pass
 
-def generate(unit, repo='/repo', import_mode=False, strip_body=(), extra_consts=()):
+def generate(unit, repo='/repo', import_mode=False, strip_body=(), extra_consts=(), extra_getters=()):
     """returns Gen with .text, .report (per function), .regions [(line_lo, line_hi, fn path, rel file, origin lines)], .items"""
     ov = open(unit['_overlay_path']).read()
     # free functions of the overlay (depth 1 inside verus!{}): decides whether `Self::f` of the real code becomes a bare `f`
@@ -148,6 +148,33 @@ def generate(unit, repo='/repo', import_mode=False, strip_body=(), extra_consts=
             except (X.LostAnchor, OSError): continue
             rt = X.simple_rewrites(X.normalize(X.tokens(rsrc[rs:re_])), unit.get('rewrite_opts'))
             res = res.replace('verus! {', 'verus! {\n' + X.emit(rt), 1); g.extra_consts.append('%s (%s)' % (name, rel)); break
+    # one-expression accessors of /repo that changed code calls but the unit does not hold: taken from /repo with the automatic
+    # contract `ensures r == <its own body>` (only when the body is a single side-effect-free expression of a `&self` method)
+    g.extra_getters = []
+    for ty, name in extra_getters:
+        own = sorted(set(e[0] for e in unit.get('functions', [])))
+        dirs = sorted(set(os.path.dirname(r_) for r_ in own))
+        sibl = [os.path.join(d_, f_) for d_ in dirs for f_ in sorted(os.listdir(os.path.join(repo, SRC, d_))) if f_.endswith('.rs') and os.path.join(d_, f_) not in own]
+        for rel in own + sibl:
+            try:
+                rsrc = open(os.path.join(repo, SRC, rel)).read(); m_r = X.mask(rsrc)
+                hit = None
+                for s0, o, c in X.find_impl_blocks(m_r, ty):
+                    r_ = X.fn_span_in(rsrc, o + 1, c, name)
+                    if r_: hit = (s0, o, r_); break
+                if not hit: continue
+            except Exception: continue
+            s0, o, (fs, fe, fts) = hit
+            fts = X.simple_rewrites(X.normalize(fts), unit.get('rewrite_opts'))
+            bo = X.body_open(fts, 0); body = fts[bo + 1:-1]; sig = fts[:bo]
+            ssig = X.strs(sig); sbody = X.strs(body)
+            if ';' in sbody or 'mut' in ssig or '->' not in ssig or any(t in sbody for t in ('for', 'while', 'loop', 'let', 'return', '?')) or '&' not in ssig: break
+            arrow = ssig.index('->')
+            header = X.tokens(rsrc[s0:o])          # `impl<..> Type<..>` of the real block
+            if 'for' in X.strs(header): break       # trait impls stay out
+            txt = X.emit(header) + ' { ' + X.emit(sig[:arrow + 1]) + ' ( vx_r : ' + X.emit(sig[arrow + 1:]) + ' ) ensures vx_r == ( ' + X.emit(body) + ' ) { ' + X.emit(body) + ' } }\n'
+            idx = res.rfind('}', 0, res.rfind('fn main'))
+            res = res[:idx] + txt + res[idx:]; g.extra_getters.append('%s::%s (%s)' % (ty, name, rel)); break
     # regions: recompute by scanning markers
     g.text = res
     g.regions = []
@@ -414,8 +441,20 @@ def run_unit(unit, repo='/repo', canary=True, keep=False, rlimit=None, workdir=N
                 v1 = run_verus(path, rlimit=rlimit or unit.get('rlimit'))
                 g, v, gen_lines = g1, v1, g1.text.split('\n')
                 vj = v.get('json', {}); vr = vj.get('verification-results', {})
-                res['verified'] = vr.get('verified'); res['errors'] = vr.get('errors'); res['verus_success'] = vr.get('success'); res['extra_consts'] = g1.extra_consts
+                res['verified'] = vr.get('verified'); res['errors'] = vr.get('errors'); res['verus_success'] = vr.get('success'); res['extra_consts'] = g1.extra_consts; res['extra_consts_names'] = missing
                 res['failures'] = [x for x in (classify_diag(dgn, g, gen_lines) for dgn in v['diags']) if x['kind'] != 'summary']
+        getters = sorted(set((m_.group(2), m_.group(1)) for f in res['failures'] if f['kind'] == 'tool-error' for m_ in re.finditer(r'no method named `([a-z_0-9]+)` found for (?:struct|reference|enum) `&?(?:mut )?([A-Za-z_0-9]+)', f.get('message', ''))))
+        if getters and any(r['edits'] for r in g.report):
+            g1 = generate(unit, repo, extra_consts=res.get('extra_consts_names', ()), extra_getters=getters)
+            if g1.extra_getters:
+                open(path, 'w').write(g1.text)
+                v1 = run_verus(path, rlimit=rlimit or unit.get('rlimit'))
+                f1 = [x for x in (classify_diag(dgn, g1, g1.text.split('\n')) for dgn in v1['diags']) if x['kind'] != 'summary']
+                if not any(x['kind'] == 'tool-error' for x in f1):
+                    g, v, gen_lines = g1, v1, g1.text.split('\n')
+                    vj = v.get('json', {}); vr = vj.get('verification-results', {})
+                    res['verified'] = vr.get('verified'); res['errors'] = vr.get('errors'); res['verus_success'] = vr.get('success'); res['extra_getters'] = g1.extra_getters
+                    res['failures'] = f1
         te_fns = set(f['fn'] for f in res['failures'] if f['kind'] == 'tool-error' and f.get('fn'))
         changed_fns = set(r['fn'] for r in g.report if r['edits'])
         retry = sorted(te_fns & changed_fns)
